@@ -15,7 +15,7 @@ use crate::{
     model::{
         Namespace, TryFromNode,
         doc::RustDocument,
-        node::RustNode,
+        node::{RustNode, collect_namespaces_on_node},
         soap::{binding::SoapBinding, message::SoapMessage, port::SoapPort, service::SoapService},
     },
 };
@@ -233,8 +233,17 @@ impl XmlReader {
             .children()
             .find(|n| n.tag_name().name() == "schema")
             .ok_or(WriterError::SchemaNotFound)?;
-        Self::read_xsd(schema, files, doc)?;
-        Ok(())
+
+        // the embedded schema may have a target namespace of its own (other than the one of the
+        // wsdl:definitions) and declare prefixes on its own element
+        let enclosing_scope = doc.namespace_scope();
+        collect_namespaces_on_node(schema, doc);
+        if let Some(target_namespace) = schema.attribute("targetNamespace") {
+            doc.switch_to_target_namespace(target_namespace);
+        }
+        let result = Self::read_xsd(schema, files, doc);
+        doc.restore_namespace_scope(enclosing_scope);
+        result
     }
 
     fn read_xsd<'n>(node: Node<'n, 'n>, files: &Files, doc: &mut RustDocument) -> WriterResult<()> {
